@@ -478,7 +478,7 @@ fn c10_partial_wiring(sim: &mut Sim, rng: &mut Rng, idx: usize, out: &mut Vec<Vi
 fn c10_matrix(sim: &mut Sim, rng: &mut Rng, idx: usize, out: &mut Vec<Violation>) {
     c10_matrix_on(sim, idx, out);
     c10_partial_wiring(sim, rng, idx, out);
-    let variant = rng.below(3);
+    let variant = rng.below(4);
     let mut c = child_of(sim);
     for contract in [HUB, DISPATCHER, REWARD, REGISTRY] {
         let (owner, _) = owner_of(&c, contract);
@@ -495,16 +495,22 @@ fn c10_matrix(sim: &mut Sim, rng: &mut Rng, idx: usize, out: &mut Vec<Violation>
                 c.apply(&set(&owner, nominee));
                 c.apply(&tx_step(raw("ownership", nominee, contract, &json!({"accept_ownership": {}}), vec![])));
             }
-            _ => {
+            2 => {
                 c.apply(&set(&owner, nominee));
                 c.apply(&set(&owner, "owner4"));
+            }
+            _ => {
+                // nomination withdrawn by nominating oneself again
+                c.apply(&set(&owner, nominee));
+                c.apply(&set(&owner, &owner));
             }
         }
     }
     c.stats.probe(match variant {
         0 => "c10_matrix_with_pending_transfer",
         1 => "c10_matrix_after_completed_transfer",
-        _ => "c10_matrix_after_abandoned_transfer",
+        2 => "c10_matrix_after_abandoned_transfer",
+        _ => "c10_matrix_after_withdrawn_nomination",
     });
     let mut vs = vec![];
     c10_matrix_on(&mut c, idx, &mut vs);
